@@ -34,9 +34,9 @@ type pstate struct {
 }
 
 var (
-	pmu      sync.RWMutex
-	pstates  = map[int64]*pstate{}
-	parkArm  atomic.Pointer[func(point string)]
+	pmu     sync.RWMutex
+	pstates = map[int64]*pstate{}
+	parkArm atomic.Pointer[func(point string)]
 	// nRegistered is written only while no registered goroutine runs slip
 	// code (before the start barrier, after the join).
 	nRegistered atomic.Int64
